@@ -401,6 +401,88 @@ def rule_null(ctx, rep):
             r.finding("handle_request|Err-arm", "%s:%d" % (h.f["file"], h.f["line"]), "the Err arm of tokenize does not answer with a null result")
 
 
+def rule_newline(ctx, rep, rid="R-C15-newline"):
+    """The line of a token is what the lexer's counter says; the client splits the same text at the protocol's line terminators
+    (LF, CR LF, lone CR).  The two agree on the Newline token only if every string that token can match contains as many characters
+    the counter counts as it contains protocol line terminators.  The counter's set is read from lexer::tokenize (the character
+    tests that lead to an advance of `line`), the token's language from its patterns (enumerated up to length 3 over CR, LF, FF, other)."""
+    import itertools
+    from vlib.mir import switch_info
+    from vlib.mir import rvalue_operands
+    r = rep.rule(rid, "every string the Newline token can match has as many line breaks for the lexer's line counter as for an LSP client (LF, CR LF, lone CR): "
+                      "a lone CR taken as a Newline would leave all later tokens on the old line", floor=2, floor_what="Newline patterns")
+    lb = ctx.prog.get("ironplc_parser::lexer::tokenize")
+    a = ctx.facts.astattrs.get("ironplc_parser::token::TokenType")
+    if not lb or not a:
+        rep.error(rid, "lexer::tokenize or TokenType attributes not found")
+        return
+    b = lb[0]
+    LINE = [l for l, (ty, name) in enumerate(b.f["locals"]) if name == "line"]
+    if not LINE:
+        rep.error(rid, "no local `line` in lexer::tokenize")
+        return
+    LINE = LINE[0]
+    dom = b.dominators()
+    counted = set()
+    unconditional = False
+    for i, j, st in b.all_stmts():
+        if st[0] == "=" and st[1] == [LINE, []] and i != 0 and not (st[2][0] == "use" and st[2][1][0] == "c"):
+            found = False
+            for d_ in dom.get(i, set()):
+                si = switch_info(b, d_)
+                if si and si["kind"] == "int":
+                    for succ, labs in si["edges"].items():
+                        if (succ == i or succ in dom.get(i, set())) and all(str(x).isdigit() for x in labs):
+                            sp = si["subject"][1] if si["subject"][0] == "place" else None
+                            sty = None
+                            if sp is not None:
+                                fs = [x for x in sp[1] if isinstance(x, list) and x[0] == "f"]
+                                sty = fs[-1][5] if fs else b.local_ty(sp[0])
+                            if sty == "char":
+                                counted |= {chr(int(x)) for x in labs}
+                                found = True
+            if not found:
+                unconditional = True
+    if not counted:
+        r.finding("lexer::tokenize|line-break characters", "%s:%d" % (b.f["file"], b.f["line"]), "cannot find the character test that guards the advance of `line`")
+        return
+    pats = []
+    for at in a["variants"].get("Newline", {}).get("attrs", []):
+        m = re.search(r'#\[regex\(r"(.*?)"(?:,|\))', at) or re.search(r'#\[token\("(.*?)"', at)
+        if m:
+            pats.append(m.group(1))
+    if not pats:
+        r.finding("TokenType::Newline|no-pattern", "parser/src/token.rs", "no pattern found on the Newline token")
+        return
+
+    def lsp_breaks(w):
+        return len(re.findall(r"\r\n|\r|\n", w))
+    for ptn in pats:
+        try:
+            rxp = re.compile(ptn)
+        except re.error as e:
+            r.finding("TokenType::Newline|%s|not-analysable" % ptn, "parser/src/token.rs", "cannot compile the pattern: %s" % e)
+            continue
+        bad = None
+        nacc = 0
+        for n in range(1, 4):
+            for tup in itertools.product("\r\n\fa", repeat=n):
+                w = "".join(tup)
+                if rxp.fullmatch(w):
+                    nacc += 1
+                    lx = sum(1 for ch in w if ch in counted)
+                    if lx != lsp_breaks(w) and bad is None:
+                        bad = (w, lx, lsp_breaks(w))
+        shown = lambda w: w.replace("\r", "\\r").replace("\n", "\\n").replace("\f", "\\f")
+        if bad:
+            r.finding("TokenType::Newline|%s|line-count-differs" % ptn, "parser/src/token.rs", "the pattern matches `%s`: the lexer's counter (advances on %s) counts %d line break(s) in it, "
+                      "an LSP client %d; tokens after it are reported on the wrong line, and text that is not valid (a lone CR) is tokenized" % (
+                          shown(bad[0]), ",".join(sorted(repr(c) for c in counted)), bad[1], bad[2]))
+        else:
+            r.ok("TokenType::Newline|%s" % ptn, "parser/src/token.rs", "%d matching string(s) up to length 3; counter and client agree on each" % nacc)
+    r.note("the line counter advances on %s%s" % (sorted(counted), " (and somewhere unconditionally)" if unconditional else ""))
+
+
 def run(ctx, rep):
     rep.not_decided += ["strict monotonicity / non-overlap of the decoded ranges (value-level)", "lengths in UTF-16 units, multi-line comment tokens",
                         "behaviour after edit histories beyond R-C11-cache (the tokenizer reads the current text)"]
@@ -425,4 +507,5 @@ def run(ctx, rep):
     from rules import c15_units
     c15_units.run(ctx, rep)
     rule_verbatim(ctx, rep)
+    rule_newline(ctx, rep)
     # R-C05-noop (column after a comment) is decided under C05
